@@ -6,6 +6,9 @@ import (
 	"net"
 
 	"github.com/vishvananda/netlink"
+
+	"github.com/AliyunContainerService/terway/plugin/driver/nic"
+	"github.com/AliyunContainerService/terway/plugin/driver/types"
 )
 
 // VerifDstIPRule exposes the u32 key (offset, value, mask) produced by dstIPRule.
@@ -18,3 +21,30 @@ func VerifDstIPRule(ip *net.IPNet) (int32, uint32, uint32, error) {
 	k := f.Sel.Keys[0]
 	return k.Off, k.Val, k.Mask, nil
 }
+
+// The declarative per-link configuration generators (unexported in production).
+func VerifGenerateContCfgForPolicy(cfg *types.SetupConfig, link netlink.Link, mac net.HardwareAddr) *nic.Conf {
+	return generateContCfgForPolicy(cfg, link, mac)
+}
+func VerifGenerateContCfgForExclusiveENI(cfg *types.SetupConfig, link netlink.Link) *nic.Conf {
+	return generateContCfgForExclusiveENI(cfg, link)
+}
+func VerifGenerateVeth1Cfg(cfg *types.SetupConfig, link netlink.Link, peerMAC net.HardwareAddr) *nic.Conf {
+	return generateVeth1Cfg(cfg, link, peerMAC)
+}
+func VerifGenerateHostSlaveCfg(cfg *types.SetupConfig, link netlink.Link) *nic.Conf {
+	return generateHostSlaveCfg(cfg, link)
+}
+func VerifGenerateContCfgForIPVlan(cfg *types.SetupConfig, link netlink.Link) *nic.Conf {
+	return generateContCfgForIPVlan(cfg, link)
+}
+func VerifGenerateENICfgForIPVlan(cfg *types.SetupConfig, link netlink.Link) *nic.Conf {
+	return generateENICfgForIPVlan(cfg, link)
+}
+func VerifGenerateSlaveLinkCfgForIPVlan(cfg *types.SetupConfig, link netlink.Link) *nic.Conf {
+	return generateSlaveLinkCfgForIPVlan(cfg, link)
+}
+func VerifGenerateContCfgForVlan(cfg *types.SetupConfig, link netlink.Link) *nic.Conf {
+	return generateContCfgForVlan(cfg, link)
+}
+func VerifGenerateENICfgForVlan(cfg *types.SetupConfig) *nic.Conf { return generateENICfgForVlan(cfg) }
